@@ -17,8 +17,8 @@ def verdicts(chk, results, kind, distinct):
                           "C07 engine E1/E2: out-of-vocabulary observation\n" + A.describe(r))
             continue
         if not r["c07"]:
-            chk.violation("drain property violated on the implementation's event log",
-                          "C07 oracle check_C07 rejects the implementation's event log\n" + A.describe(r))
+            chk.violation("drain property violated on the implementation's event log / status moved backwards after the exit",
+                          "C07 oracle check_C07 && check_status rejects the implementation's event log and final status\n" + A.describe(r))
         elif "model_t" in r and r["model_t"] != r["impl_t"]:
             chk.coverage["disagreements_checked"] += 1
             mlog, ilog = r["model_t"][1], r["impl_t"][1]
@@ -71,12 +71,18 @@ def run(chk):
     for ns, nd in ((1, 1), (1, 2), (2, 1), (2, 2)):
         ex += A.gen_exhaustive(ns, nd, "dvar")
         ex += A.gen_exhaustive(ns, nd, "dvar", blocks=("run",))
+    # drains (every public form) on a reference held after the exit / while Stopping, followed by waits
+    ex += A.after_exit_scenarios()
     # drain while the actor is still in pre_start (spawn_instant, pre_start parked at a gate)
     ex += A.instant_scenarios(chk.rng, 60 if quick else 600)
     res = A.run_scenarios(chk, build, ex, "C07e")
     verdicts(chk, res, "exhaustive", distinct)
     chk.count("exhaustive.scenarios", len(ex))
     chk.coverage["samples"].append(json.loads(A.describe(res[len(res) // 2])))
+
+    # ---- long standing backlog drained: everything accepted before the drain is handled
+    lres = A.run_scenarios(chk, build, [A.long_backlog(1040, drain=True)], "C07L", lite=True, only="C07")
+    verdicts(chk, lres, "long", distinct)
 
     # ---- seeded random scenarios (drains at every phase, re-entrant calls, stop/kill/failure)
     n_rand = (600 if quick else 8000) * factor
@@ -141,7 +147,9 @@ def run(chk):
         "(box_message door: ticket taken, not yet enqueued) with 1..2 drain() calls, in variants plain / re-entrant drain "
         "from box_message / re-entrant send from box_message / an extra un-gated send, each followed by run, a late send, run; "
         "post_stop family: 1..2 senders x 1..2 drains with the actor run at every intermediate position and the target's "
-        "post_stop releasing the parked senders; drain-entry family: the same orders with the drains issued through "
+        "post_stop releasing the parked senders; after-exit family: every public drain form on a reference held after a "
+        "drained / stopped / killed / failed exit or while Stopping, followed by wait() and drain_and_wait (status must stay "
+        "Stopped, waits must return); a drained standing backlog of 1040 messages; drain-entry family: the same orders with the drains issued through "
         "supervisor.drain_children / drain_and_wait(Some) / drain_and_wait(None); instant family: spawn_instant target parked in pre_start, all sequences of "
         "length <= 3 over {send, drain, parked sender thread, send whose handler drains} before the start gate opens; race: "
         "3000 rounds of 6..8 pooled sender threads casting until refused against one drain() (verdict after quiescence); "
